@@ -572,7 +572,8 @@ def c06_oracle(full, io, b):
                 k, _, val = piece.partition("=")
                 exp.append((ref_unquote(k.replace("+", " ")), ref_unquote(val.replace("+", " "))))
             if exp != pairs:
-                bad_utf8 = any("\ufffd" in a or "\ufffd" in c for a, c in pairs) and "\ufffd" not in raw and "%EF%BF%BD" not in raw.upper()
+                # the listed finding: the value is exactly what stdlib parse_qsl(errors="replace") yields, and it contains a replacement character
+                bad_utf8 = any("\ufffd" in a or "\ufffd" in c for a, c in pairs) and up.parse_qsl(raw, keep_blank_values=True) == pairs
                 out.append(fail(v, h, "query", f"query = {pairs!r} but decoding raw_query_string = {raw!r} pairwise gives {exp!r}",
                                 "query-undecodable-escape-replaced" if bad_utf8 else "query-view", also=[v.n_of(h, "raw_query_string")]))
     # read-back of supplied decoded values
